@@ -174,6 +174,28 @@ func main() {
 		fmt.Printf("MUTANT-MISSED %s expect=%q fired=%v broken=%v\n", spec.Name, spec.Expect, fired, r.Broken)
 		os.Exit(5)
 	}
+	// an obligation that disappears together with the construct it was attached to must not pass silently
+	if overlayFile == "" {
+		got := map[string]int{}
+		for _, o := range r.Obs {
+			got[o.Rule]++
+		}
+		var rules []string
+		for rule := range reviewedCounts[id] {
+			rules = append(rules, rule)
+		}
+		sort.Strings(rules)
+		// census rules enumerate hazards (failure origins, map ranges, debit sinks): fewer of them is not a loss
+		census := map[string]bool{"FAIL-DIV": true, "FAIL-ERR": true, "FAIL-INDEX": true, "FAIL-PANIC": true, "DET-API": true, "DET-MAPRANGE": true, "DET-SORT": true, "VOTEEXT-FAIL": true, "SIGNER-FRAME": true}
+		for _, rule := range rules {
+			if census[rule] {
+				continue
+			}
+			if got[rule] < reviewedCounts[id][rule] {
+				r.broken("rule %s produced %d obligations, %d were reviewed on the last reviewed tree: a construct an obligation was attached to is gone or moved; re-review it and refresh tools/gen_counts.py", rule, got[rule], reviewedCounts[id][rule])
+			}
+		}
+	}
 	if replay != "" {
 		b, err := os.ReadFile(replay)
 		if err == nil {
